@@ -264,7 +264,7 @@ RCP<const Basic> SbmlParser::functionify(const std::string &name,
         }
         auto it3 = single_arg_boolean_boolean_functions.find(lname);
         if (it3 != single_arg_boolean_boolean_functions.end()) {
-            return it3->second(rcp_static_cast<const Boolean>(params[0]));
+            return it3->second(boolean_operand(params[0]));
         }
     }
 
@@ -288,8 +288,7 @@ RCP<const Basic> SbmlParser::functionify(const std::string &name,
         PiecewiseVec v;
         for (std::size_t i = 0; i < params.size() / 2; ++i) {
             // piecewise has pairs of {value, bool condition}
-            v.push_back({params[2 * i],
-                         rcp_static_cast<const Boolean>(params[2 * i + 1])});
+            v.push_back({params[2 * i], boolean_operand(params[2 * i + 1])});
         }
         if (params.size() % 2 == 1) {
             // piecewise can also have a default value
@@ -302,7 +301,7 @@ RCP<const Basic> SbmlParser::functionify(const std::string &name,
     if (it2 != multi_arg_vec_boolean_functions.end()) {
         vec_boolean p;
         for (auto &v : params) {
-            p.push_back(rcp_static_cast<const Boolean>(v));
+            p.push_back(boolean_operand(v));
         }
         return it2->second(p);
     }
@@ -311,7 +310,7 @@ RCP<const Basic> SbmlParser::functionify(const std::string &name,
     if (it3 != multi_arg_set_boolean_functions.end()) {
         set_boolean s;
         for (auto &v : params) {
-            s.insert(rcp_static_cast<const Boolean>(v));
+            s.insert(boolean_operand(v));
         }
         return it3->second(s);
     }
